@@ -102,6 +102,7 @@ def get_emit_kwarg(decorator_list, emit_call, emit_name, name_tpl, name):
             },
             "function": {
                 "function_name": _name,
+                "function_type": "static",
             },
             "json_schema": {
                 "identifier": _name,
